@@ -120,6 +120,15 @@ func cmdCheck(args []string) {
 	tSolve := time.Since(tSolve0).Seconds()
 	decideRegions(v.Regions)
 
+	if d := os.Getenv("GVC_DUMP"); d != "" {
+		// debugging: GVC_DUMP=<obligation-name>:<path> prints that query
+		for _, o := range v.Obls {
+			if fmt.Sprintf("%s:%d", o.Name, o.Path) == d {
+				fmt.Fprintf(os.Stderr, "---- %s path %d status=%s solver=%s\n%s\n", o.Name, o.Path, o.Status, o.Solver, o.smt(true))
+			}
+		}
+	}
+
 	// ---- classify ----------------------------------------------------------
 	type group struct {
 		name                                       string
@@ -240,6 +249,9 @@ func cmdCheck(args []string) {
 	}
 	for _, e := range v.Errors {
 		fmt.Fprintln(os.Stderr, "MACHINERY-ERROR:", e)
+	}
+	for _, e := range v.Warnings {
+		fmt.Fprintln(os.Stderr, "WARNING:", e)
 	}
 
 	// ---- evidence --------------------------------------------------------------
@@ -417,6 +429,7 @@ func writeEvidence(path string, v *Verifier, prop, tier string, seed int, nObl, 
 		"samples":                  samples,
 		"contract_files":           v.CS.Files,
 		"machinery_errors":         v.Errors,
+		"warnings":                 v.Warnings,
 	}
 	ev := map[string]interface{}{
 		"property_id": prop,
